@@ -22,12 +22,16 @@ from typing import Any, Callable, Dict, List, Tuple
 
 
 def _child(make_calls, prefix: str, k: int, wfd: int) -> None:
+    """k > 0: suspend call A before its k-th line; k = 0: dry run of call A
+    alone that reports the code location of every line it executes."""
     out: Dict[str, Any] = {'k': k, 'reached': False, 'events': [], 'error': None}
     try:
         call_a, call_b = make_calls()
         paused, resume = threading.Event(), threading.Event()
         count = [0]
         res_a: List[Any] = []
+        locs: List[int] = []
+        loc_ids: Dict[Any, int] = {}
 
         def tracer(frame, event, arg):
             if not frame.f_code.co_filename.startswith(prefix):
@@ -36,7 +40,11 @@ def _child(make_calls, prefix: str, k: int, wfd: int) -> None:
             def local(fr, ev, ar):
                 if ev == 'line':
                     count[0] += 1
-                    if count[0] == k:
+                    if k == 0:
+                        if len(locs) < 3000000:
+                            locs.append(loc_ids.setdefault((fr.f_code.co_filename, fr.f_lineno),
+                                                           len(loc_ids)))
+                    elif count[0] == k:
                         paused.set()
                         resume.wait(20.0)
                 return local
@@ -64,8 +72,9 @@ def _child(make_calls, prefix: str, k: int, wfd: int) -> None:
                 evs_b = [{'ev': 'race-error', 'who': 'B', 'msg': f'{type(ex).__name__}: {ex}'[:120]}]
         resume.set()
         t.join(30.0)
-        out['events'] = list(res_a) + evs_b
+        out['events'] = list(res_a) + evs_b if k else []
         out['hung'] = t.is_alive()
+        out['locs'] = locs
     except BaseException as ex:  # noqa
         out['error'] = f'{type(ex).__name__}: {ex}'[:200]
     try:
@@ -76,10 +85,46 @@ def _child(make_calls, prefix: str, k: int, wfd: int) -> None:
 
 def explore(make_calls: Callable[[], Tuple[Callable[[], List[dict]], Callable[[], List[dict]]]],
             repo_prefix: str, max_points: int = 120) -> Tuple[List[dict], int]:
-    """Returns (events, number of preemption points explored)."""
+    """Returns (events, number of preemption points explored).
+
+    A dry run of call A (in a child, like everything else) gives the code
+    location of each of its line events.  Call A is then suspended before
+    every one of its first 40 lines and, for every distinct location, before
+    the first, second, middle and last time it is reached - race windows
+    belong to code locations, and a loop of a thousand rounds has four
+    interesting moments, not a thousand."""
     events: List[dict] = []
-    k = 1
-    while k <= max_points:
+    dry = _run_child(make_calls, repo_prefix, 0)
+    if dry.get('error'):
+        return [{'ev': 'race-error', 'who': 'harness', 'msg': 'dry run: ' + dry['error']}], 0
+    locs = dry.get('locs', [])
+    occ: Dict[int, List[int]] = {}
+    for idx, l in enumerate(locs):
+        occ.setdefault(l, []).append(idx + 1)
+    first = sorted({o[0] for o in occ.values()})
+    more = sorted({x for o in occ.values() for x in (o[min(1, len(o) - 1)], o[len(o) // 2], o[-1])})
+    points: List[int] = []
+    for x in list(range(1, min(40, len(locs)) + 1)) + first + more:
+        if x not in points:
+            points.append(x)
+    points = sorted(points[:max_points])
+    for k in points:
+        out = _run_child(make_calls, repo_prefix, k)
+        if out.get('error'):
+            events.append({'ev': 'race-error', 'who': 'harness', 'msg': out['error']})
+            break
+        for e in out.get('events', []):
+            e = dict(e)
+            e['tid'] = f'race{k}.{e.get("tid", len(events))}'
+            e['race_point'] = k
+            events.append(e)
+        if out.get('hung'):
+            events.append({'ev': 'race-error', 'who': 'A', 'msg': 'call A did not finish', 'tid': f'race{k}.hung'})
+    return events, len(points)
+
+
+def _run_child(make_calls, repo_prefix: str, k: int) -> Dict[str, Any]:
+    if True:
         rfd, wfd = os.pipe()
         pid = os.fork()
         if pid == 0:
@@ -97,21 +142,8 @@ def explore(make_calls: Callable[[], Tuple[Callable[[], List[dict]], Callable[[]
         try:
             out = json.loads(data.decode() or '{}')
         except ValueError:
-            out = {}
-        if out.get('error'):
-            events.append({'ev': 'race-error', 'who': 'harness', 'msg': out['error']})
-            break
-        for e in out.get('events', []):
-            e = dict(e)
-            e['tid'] = f'race{k}.{e.get("tid", len(events))}'
-            e['race_point'] = k
-            events.append(e)
-        if out.get('hung'):
-            events.append({'ev': 'race-error', 'who': 'A', 'msg': 'call A did not finish', 'tid': f'race{k}.hung'})
-        if not out.get('reached'):
-            break
-        k += 1
-    return events, k - 1
+            out = {'error': 'child returned no result'}
+        return out
 
 
 def run_race(chk, name: str, make_calls, max_points: int = 150) -> List[dict]:
